@@ -54,7 +54,7 @@ class Layout:
 def isagg(t): return t.k in ('struct', 'arr')
 
 class Flat:
-    in_ginit = False; prune_init = True; nsw = False; heap = 1024; pagewords = 32
+    in_ginit = False; prune_init = True; nsw = False; heap = 1024; pagewords = 32; extra_fns = {}
     def __init__(s, mod, stubs, visible_stubs=(), seq=False, nthreads=4, noglobal=()):
         s.noglobal = set(noglobal); s.blocking = set(); s.icall_only = set(); s.frames_info = []; s.frame_init = {}
         s.m = mod; s.L = Layout(mod); s.stubs = set(stubs); s.vis = set(visible_stubs); s.seq = seq; s.nt = nthreads
@@ -262,6 +262,9 @@ class Flat:
         hdr += ['#define GSZ_%s %dull' % (s.gname(n), s.L.size(s.m.globs[n].ty)) for n in s.gaddr]
         hdr += ['#define TLS_%s(t) (IR_TLS_BASE + (u64)(t) * IR_TLS_STRIDE + %dull)' % (s.gname(n), a) for n, a in s.tls.items()]
         hdr += ['#define FN_%s %dull' % (cid(n), a) for n, a in s.faddr.items()]
+        for k, (fn, (xrt, xats)) in enumerate(s.extra_fns.items()):
+            hdr.append('#define FN_%s %dull   /* harness-defined function reachable through indirect calls */' % (fn, 0xF000 + 16 * k))
+            hdr.append('%s %s(%s);' % (xrt, fn, ', '.join(xats) or 'void'))
         hdr += s.aggdefs
         protos = [s.proto(s.m.funcs[n]) + ';' for n in sorted(s.fseen) if not n.startswith('llvm.')]
         inits = ['ir_sp[%d] = IR_STACK_BASE + %dull * IR_STACK_STRIDE;' % (t, t) for t in range(s.nt)] + inits
@@ -321,6 +324,10 @@ class Flat:
                 if s.sig(f.ret, [t for t, _ in f.params]) != (rt, ats): continue
                 call = '%s(%s)' % (cid(fn), ', '.join('a%d' % i for i in range(len(ats))))
                 cases.append('    case FN_%s: %s' % (cid(fn), ('%s; return;' % call) if rt == 'void' else 'return %s;' % call))
+            for fn, (xrt, xats) in s.extra_fns.items():
+                if (xrt, tuple(xats)) != (rt, ats): continue
+                call = '%s(%s)' % (fn, ', '.join('a%d' % i for i in range(len(ats))))
+                cases.append('    case FN_%s: %s' % (fn, ('%s; return;' % call) if rt == 'void' else 'return %s;' % call))
             out.append('%s %s(u64 fp%s) {\n  switch (fp) {\n%s\n    default: IR_BAD_ICALL(fp); %s\n  }\n}\n' % (
                 rt, n, ''.join(', %s a%d' % (t, i) for i, t in enumerate(ats)), '\n'.join(cases), 'return;' if rt == 'void' else 'return (%s){0};' % rt if rt.startswith('agg') else 'return 0;'))
         return out
